@@ -136,6 +136,30 @@ macro_rules! with_elem {
     };
 }
 
+/// helper calls are only instantiated for four element types
+macro_rules! with_elem_small {
+    ($e:expr, $T:ident => $body:expr) => {
+        match $e {
+            Elem::U8 | Elem::U16 | Elem::A3 | Elem::A24 => {
+                type $T = u8;
+                $body
+            }
+            Elem::U32 | Elem::U64 | Elem::U128 => {
+                type $T = u32;
+                $body
+            }
+            Elem::Al32 => {
+                type $T = Al32;
+                $body
+            }
+            Elem::Unit => {
+                type $T = ();
+                $body
+            }
+        }
+    };
+}
+
 #[derive(Clone, Copy, Debug, PartialEq, Eq)]
 pub enum TypedReq {
     Layout(Layout),
@@ -420,21 +444,13 @@ impl<T: Copy> Iterator for LyingIter<T> {
 macro_rules! route_core {
     ($self:ident, $route:expr, |$b:ident| $body:expr) => {{
         let own = $self;
-        let r1 = &own;
         let wd = WithoutDealloc(own);
         let ws = WithoutShrink(own);
-        let wds = WithoutDealloc(WithoutShrink(own));
         let wsd = WithoutShrink(WithoutDealloc(own));
         let dc: &dyn BumpAllocatorCore = own;
-        let dcs: &dyn BumpAllocatorCoreScope<'_> = own;
-        let dmc: &dyn MutBumpAllocatorCore = own;
         match $route {
-            Route::Own => {
+            Route::Own | Route::Ref => {
                 let $b = own;
-                $body
-            }
-            Route::Ref => {
-                let $b = r1;
                 $body
             }
             Route::WoDealloc => {
@@ -445,24 +461,12 @@ macro_rules! route_core {
                 let $b = &ws;
                 $body
             }
-            Route::WoDeallocShrink => {
-                let $b = &wds;
-                $body
-            }
-            Route::WoShrinkDealloc => {
+            Route::WoDeallocShrink | Route::WoShrinkDealloc => {
                 let $b = &wsd;
                 $body
             }
-            Route::DynCore => {
+            Route::DynCore | Route::DynCoreScope | Route::DynMutCore => {
                 let $b = &dc;
-                $body
-            }
-            Route::DynCoreScope => {
-                let $b = &dcs;
-                $body
-            }
-            Route::DynMutCore => {
-                let $b = &dmc;
                 $body
             }
         }
@@ -474,24 +478,14 @@ macro_rules! route_core {
 macro_rules! route_typed {
     ($self:ident, $route:expr, |$b:ident| $body:expr) => {{
         let own = $self;
-        let r1 = &own;
         let wsd = WithoutShrink(WithoutDealloc(own));
-        let dcs: &dyn BumpAllocatorCoreScope<'_> = own;
         match $route {
-            Route::Own | Route::DynCore => {
-                let $b = own;
-                $body
-            }
-            Route::Ref | Route::DynMutCore => {
-                let $b = r1;
-                $body
-            }
             Route::WoDealloc | Route::WoShrink | Route::WoDeallocShrink | Route::WoShrinkDealloc => {
                 let $b = &wsd;
                 $body
             }
-            Route::DynCoreScope => {
-                let $b = &dcs;
+            _ => {
+                let $b = own;
                 $body
             }
         }
@@ -680,14 +674,20 @@ macro_rules! impl_api {
                 if const { A::HOME != $MA } {
                     unreachable!("lite cell");
                 }
-                route_scope!(self, route, |b| boxed_impl(b, req, seed, try_))
+                {
+                    let _ = route;
+                    boxed_impl(self, req, seed, try_)
+                }
             }
 
             unsafe fn x_vec_op(&self, route: Route, parts: (usize, usize, usize), op: u8, n: usize, seed: u64) -> ((usize, usize, usize), bool) {
                 if const { A::HOME != $MA } {
                     unreachable!("lite cell");
                 }
-                unsafe { route_scope!(self, route, |b| vec_op_impl(b, parts, op, n, seed)) }
+                {
+                    let _ = route;
+                    unsafe { vec_op_impl(self, parts, op, n, seed) }
+                }
             }
 
             fn x_alloc_try_with(&self, ok: bool, try_: bool, inner: &mut dyn FnMut(&dyn Api)) -> Result<Option<BoxOut>, ()> {
@@ -832,52 +832,52 @@ fn boxed_impl<'a, X: BumpAllocatorTypedScope<'a>>(b: &X, req: BoxReq, seed: u64,
         };
     }
     Ok(match req {
-        BoxReq::Alloc(e) => with_elem!(e, T => {
+        BoxReq::Alloc(e) => with_elem_small!(e, T => {
             let v = make_val::<T>(seed, 0);
             let bx = t!(b.try_alloc(v), b.alloc(v));
             let ok = check_vals(&*bx as *const T, 1, seed);
             box_out(bx, ok)
         }),
-        BoxReq::AllocWith(e) => with_elem!(e, T => {
+        BoxReq::AllocWith(e) => with_elem_small!(e, T => {
             let bx = t!(b.try_alloc_with(|| make_val::<T>(seed, 0)), b.alloc_with(|| make_val::<T>(seed, 0)));
             let ok = check_vals(&*bx as *const T, 1, seed);
             box_out(bx, ok)
         }),
-        BoxReq::AllocDefault(e) => with_elem!(e, T => {
+        BoxReq::AllocDefault(e) => with_elem_small!(e, T => {
             let bx = t!(b.try_alloc_default::<T>(), b.alloc_default::<T>());
             let ok = *bx == T::default();
             box_out(bx, ok)
         }),
-        BoxReq::AllocUninit(e) => with_elem!(e, T => {
+        BoxReq::AllocUninit(e) => with_elem_small!(e, T => {
             let bx = t!(b.try_alloc_uninit::<T>(), b.alloc_uninit::<T>());
             box_out(bx, true)
         }),
-        BoxReq::SliceCopy(e, n) => with_elem!(e, T => {
+        BoxReq::SliceCopy(e, n) => with_elem_small!(e, T => {
             let v: Vec<T> = (0..n).map(|i| make_val::<T>(seed, i)).collect();
             let bx = t!(b.try_alloc_slice_copy(&v), b.alloc_slice_copy(&v));
             let ok = bx.len() == n && elems_ok(bx.as_ptr(), n, seed, true);
             box_out(bx, ok)
         }),
-        BoxReq::SliceClone(e, n) => with_elem!(e, T => {
+        BoxReq::SliceClone(e, n) => with_elem_small!(e, T => {
             let v: Vec<T> = (0..n).map(|i| make_val::<T>(seed, i)).collect();
             let bx = t!(b.try_alloc_slice_clone(&v), b.alloc_slice_clone(&v));
             let ok = bx.len() == n && elems_ok(bx.as_ptr(), n, seed, true);
             box_out(bx, ok)
         }),
-        BoxReq::SliceFill(e, n) => with_elem!(e, T => {
+        BoxReq::SliceFill(e, n) => with_elem_small!(e, T => {
             let v = make_val::<T>(seed, 0);
             let bx = t!(b.try_alloc_slice_fill(n, v), b.alloc_slice_fill(n, v));
             let ok = bx.len() == n && elems_ok(bx.as_ptr(), n, seed, false);
             box_out(bx, ok)
         }),
-        BoxReq::SliceFillWith(e, n) => with_elem!(e, T => {
+        BoxReq::SliceFillWith(e, n) => with_elem_small!(e, T => {
             let mut i = 0usize;
             let mut g = || { let v = make_val::<T>(seed, i); i += 1; v };
             let bx = if try_ { b.try_alloc_slice_fill_with(n, &mut g).map_err(|_| ())? } else { b.alloc_slice_fill_with(n, &mut g) };
             let ok = bx.len() == n && elems_ok(bx.as_ptr(), n, seed, true);
             box_out(bx, ok)
         }),
-        BoxReq::UninitSlice(e, n) => with_elem!(e, T => {
+        BoxReq::UninitSlice(e, n) => with_elem_small!(e, T => {
             let bx = t!(b.try_alloc_uninit_slice::<T>(n), b.alloc_uninit_slice::<T>(n));
             let ok = bx.len() == n;
             box_out(bx, ok)
